@@ -648,6 +648,10 @@ def evaluate(cases, workdir=None):
     """run each case on the implementation, replay on the Lean model and the ghost machine, compare.
     Returns one Verdict per case."""
     common.use_repo()
+    if any(c.get('kind') == 'calc' for c in cases):
+        plain = [c for c in cases if c.get('kind') != 'calc']
+        pv = iter(evaluate(plain, workdir) if plain else [])
+        return [evaluate_calc(c) if c.get('kind') == 'calc' else next(pv) for c in cases]
     all_obs = []
     old = os.getcwd()
     base = workdir or common.scratch_dir('status')
@@ -807,9 +811,146 @@ def _model_would_crash(case, obs, i, steps, a, b):
 
 
 # ----------------------------------------------------------------------------------------------
+# calc_dep scenario family (outside the Lean model M2: calc_dep belongs to the run model M1).
+# Only the monitors look at these cases, with a statement-level Python predicate: every run of the script is fully
+# successful, so "the last successful execution" of each task is known by construction and so is the set of tasks
+# whose inputs changed since then.
+
+CALC_ORDERS = ['calc-first', 'consumer-first', 'default']
+
+
+def calc_cases(full):
+    out = []
+    n = 0
+    for order in CALC_ORDERS:
+        for consumers in (1, 2):
+            for par in (None, 'thread', 'process'):
+                for b in BACKENDS:
+                    for ck in CHECKERS:
+                        n += 1
+                        if not full and not (par is None and (n % 3 == 0) or (par == 'thread' and n % 12 == 1)):
+                            continue
+                        out.append({'kind': 'calc', 'backend': b, 'checker': ck, 'order': order, 'consumers': consumers,
+                                    'par': par, 'ntasks': consumers + 1, 'npaths': 2, 'ops': []})
+    return out
+
+
+CALC_SCRIPT = [('run', None), ('run', None), ('run', None), ('edit', 'util'), ('run', None), ('run', None),
+               ('touch', 'main'), ('run', None), ('edit', 'main'), ('run', None), ('run', None)]
+
+
+def evaluate_calc(case):
+    """tasks: scan (file_dep [main], its action returns {'file_dep': ['util']}), obj<i> (file_dep [main],
+    calc_dep ['scan']).  Expected executions per run: first run everything; identical re-run nothing; util edited ->
+    the consumers only; main touched -> nothing under md5, everything under timestamp; main edited -> everything."""
+    common.use_repo()
+    from doit.doit_cmd import DoitMain
+    from doit.cmd_base import ModuleTaskLoader
+    v = Verdict()
+    v.obs = []
+    names = ['scan'] + ['obj%d' % i for i in range(case['consumers'])]
+    clock = [T0]
+
+    def put(name, cid):
+        clock[0] += 1
+        with open(name, 'w') as f:
+            f.write(content_of(cid))
+        os.utime(name, ns=(clock[0] * NS, clock[0] * NS))
+
+    def scan():
+        return {'file_dep': ['util']}
+
+    def compile_():
+        return True
+
+    def mk():
+        ns = {'task_scan': lambda: {'actions': [scan], 'file_dep': ['main']}}
+        for i in range(case['consumers']):
+            ns['task_obj%d' % i] = lambda: {'actions': [compile_], 'file_dep': ['main'], 'calc_dep': ['scan']}
+        return ns
+
+    old = os.getcwd()
+    d = common.scratch_dir('calc')
+    os.chdir(d)
+    try:
+        put('main', 1)
+        put('util', 2)
+        cid = 3
+        pending = set(names)          # tasks whose inputs changed since their last successful execution
+        for i, (kind, arg) in enumerate(CALC_SCRIPT):
+            if kind == 'edit':
+                cid += 2
+                put(arg, cid)
+                pending |= set(names) if arg == 'main' else set(names[1:])
+                v.obs.append({'kind': 'edit', 'what': arg})
+                continue
+            if kind == 'touch':
+                clock[0] += 1
+                os.utime(arg, ns=(clock[0] * NS, clock[0] * NS))
+                if case['checker'] == 'timestamp':
+                    pending |= set(names)
+                v.obs.append({'kind': 'touch', 'what': arg})
+                continue
+            argv = ['run']
+            if case['par'] == 'thread':
+                argv += ['-n', '2', '-P', 'thread']
+            elif case['par'] == 'process':
+                argv += ['-n', '2']
+            if case['order'] == 'calc-first':
+                argv += names
+            elif case['order'] == 'consumer-first':
+                argv += names[1:] + names[:1]
+            ns = mk()
+            rep = RecordingReporter()
+            ns['DOIT_CONFIG'] = {'dep_file': 'deps-' + case['backend'], 'backend': case['backend'], 'verbosity': 0,
+                                 'check_file_uptodate': case['checker'], 'reporter': rep}
+            out, err = io.StringIO(), io.StringIO()
+            with contextlib.redirect_stdout(out), contextlib.redirect_stderr(err):
+                try:
+                    code = DoitMain(ModuleTaskLoader(ns)).run(argv)
+                except BaseException as e:  # noqa
+                    code = ['exc', type(e).__name__]
+            executed = sorted({n for k, n, _ in rep.events if k == 'execute_task'})
+            skipped = sorted({n for k, n, _ in rep.events if k == 'skip_uptodate'})
+            v.obs.append({'kind': 'run', 'argv': argv, 'code': code, 'executed': executed, 'skipped': skipped,
+                          'expected': sorted(pending), 'stderr': err.getvalue()[-300:] if code not in (0, None) else ''})
+            v.n_exec += len(executed)
+            v.n_skip += len(skipped)
+            if code not in (0, None):
+                v.divergence = (i, 'calc_dep scenario: doit run exited %s' % (code,), executed, sorted(pending))
+                break
+            for n in executed:
+                if n not in pending:
+                    v.c04.append((i, n, 'exec'))
+            for n in skipped:
+                if n in pending:
+                    v.c03.append((i, n, 'skip'))
+            pending = set()
+    finally:
+        os.chdir(old)
+        shutil.rmtree(d, ignore_errors=True)
+    return v
+
+
+def render_calc(case):
+    out = ['calc_dep scenario: backend=%s checker=%s order=%s consumers=%d%s' % (
+        case['backend'], case['checker'], case['order'], case['consumers'],
+        '' if not case['par'] else ' -n 2' + (' -P thread' if case['par'] == 'thread' else '')),
+        "scan = {file_dep: ['main'], action returns {'file_dep': ['util']}}",
+        "obj<i> = {file_dep: ['main'], calc_dep: ['scan']}"]
+    names = ['scan'] + ['obj%d' % i for i in range(case['consumers'])]
+    sel = '' if case['order'] == 'default' else ' ' + ' '.join(names if case['order'] == 'calc-first' else names[1:] + names[:1])
+    for kind, arg in CALC_SCRIPT:
+        out.append('doit run' + sel if kind == 'run' else '%s %s' % (kind, arg))
+    return out
+
+
+# ----------------------------------------------------------------------------------------------
 # rendering and shrinking
 
 def render(case):
+    if case.get('kind') == 'calc':
+        return render_calc(case)
     extra = ''
     if case.get('scramble'):
         extra += ' mtimes-non-monotone(%d)' % case['scramble']
@@ -872,6 +1013,8 @@ def shrink(case, still_fails, max_evals=120):
             return False
 
     cur = json.loads(json.dumps(case))
+    if cur.get('kind') == 'calc':
+        return cur
 
     def used_tasks(c):
         m = 0
@@ -1041,6 +1184,73 @@ def gen_plan_ok(rng, sh, defs):
     return plan
 
 
+def _run_all(plan):
+    return ['run', {'sel': None, 'always': False, 'cont': True, 'par': None, 'plan': plan}]
+
+
+def fragment_false_item_restore(rng, sh, defs):
+    """a run that is caused by a FALSE uptodate item (get_status returns early, dep_changed == []) while a source has
+    other content; afterwards the item is true again and the source gets its old content back exactly"""
+    t = rng.randrange(sh.ntasks)
+    d = json.loads(json.dumps(defs[t]))
+    src = [p for p in d['deps'] if p < sh.nsrc]
+    if not src:
+        d['deps'].append(0)
+        src = [0]
+    p = rng.choice(src)
+    a, b = rng.sample(range(1, 8), 2)
+    base_utd = [u for u in d['uptodate'] if u[0] in ('none',) or (u[0] in ('const', 'shell', 'custom') and u[1] is True)]
+    how = rng.choice(['cfg', 'const', 'shell', 'custom'])
+    if how == 'cfg':
+        good, bad, back = base_utd + [['cfg', 1]], base_utd + [['cfg', 2]], None
+    else:
+        good, bad = base_utd + [[how, True]], base_utd + [[how, False]]
+        back = good
+    ops = [['edit', p, a], ['redefine', t, dict(d, uptodate=good)], _run_all(gen_plan_ok(rng, sh, defs)),
+           _run_all(gen_plan_ok(rng, sh, defs)),
+           ['edit', p, b], ['redefine', t, dict(d, uptodate=bad)], _run_all(gen_plan_ok(rng, sh, defs))]
+    if back is not None:
+        ops.append(['redefine', t, dict(d, uptodate=back)])
+    if rng.random() < 0.3:
+        ops.append(_run_all(gen_plan_ok(rng, sh, defs)))
+    ops += [['edit', p, a], _run_all(gen_plan_ok(rng, sh, defs)), _run_all(gen_plan_ok(rng, sh, defs))]
+    defs[t] = dict(d, uptodate=(back if back is not None else bad))
+    return ops
+
+
+def fragment_own_dep_rewrite(rng, sh, defs):
+    """the action of a task rewrites one of its own file_deps in place (same size or another size) during an
+    execution that was caused by a modification of that very file; later the file is touched"""
+    t = rng.randrange(sh.ntasks)
+    d = json.loads(json.dumps(defs[t]))
+    p = rng.randrange(sh.nsrc)
+    for u in range(sh.ntasks):              # the file is private to t
+        if u != t and p in defs[u]['deps']:
+            dd = json.loads(json.dumps(defs[u]))
+            dd['deps'].remove(p)
+            defs[u] = dd
+    if p not in d['deps']:
+        d['deps'].append(p)
+    d['uptodate'] = [u for u in d['uptodate'] if not (u[0] in ('const', 'shell', 'custom') and u[1] is False)]
+    defs[t] = d
+    same = rng.random() < 0.7
+    a = rng.choice([1, 3, 5, 7])
+    b = rng.choice([c for c in [1, 3, 5, 7] if c != a])
+    c = rng.choice([c for c in ([1, 3, 5, 7] if same else [2, 4, 6]) if c not in (a, b)])
+    ops = [['redefine', u, defs[u]] for u in range(sh.ntasks)]
+    plan = gen_plan_ok(rng, sh, defs)
+    ops += [['edit', p, a], _run_all(plan), rng.choice([['edit', p, b], ['touch', p]])]
+    plan2 = json.loads(json.dumps(gen_plan_ok(rng, sh, defs)))
+    pl = plan2.setdefault(str(t), {'ok': True, 'writes': [], 'res': None})
+    pl['writes'] = pl['writes'] + [[p, c]]
+    spec = _run_all(plan2)
+    if rng.random() < 0.3:
+        spec[1]['always'] = True
+    ops += [spec, _run_all(gen_plan_ok(rng, sh, defs)), ['touch', p], _run_all(gen_plan_ok(rng, sh, defs)),
+            _run_all(gen_plan_ok(rng, sh, defs))]
+    return ops
+
+
 def gen_case(rng, parallel=False, informational=False):
     ntasks = rng.choice([1, 1, 1, 1, 2, 2, 2, 3, 3, 4])
     nsrc = rng.choice([1, 2, 2, 3])
@@ -1098,6 +1308,11 @@ def gen_case(rng, parallel=False, informational=False):
             ops.append(['reset-dep', [] if rng.random() < 0.35 else [rng.randrange(ntasks)]])
         elif k == 'checker':
             ops.append(['checker', rng.choice(CHECKERS)])
+    r0 = rng.random()
+    if r0 < 0.18:
+        ops += fragment_false_item_restore(rng, sh, defs)
+    elif r0 < 0.36:
+        ops += fragment_own_dep_rewrite(rng, sh, defs)
     if common_src is not None and rng.random() < 0.5:
         # records of tasks sharing a source diverge: everything is run, the shared source changes, only some tasks
         # are refreshed (partial run / reset-dep / forget + partial run), then everything is run again (twice)
@@ -1176,6 +1391,19 @@ EXH_MACRO = {'a': [_DEF_A, _RUN], 'b': [_DEF_B, _RUN], 'c': [_DEF_C, _RUN], 'r':
              'e': [['edit', 0, 3]], 't': [['touch', 0]], 'g': [['forget', [0]]], 's': [['reset-dep', [0]]]}
 
 
+def _utd_def(items):
+    return ['redefine', 0, {'deps': [0], 'targets': [], 'uptodate': items}]
+
+
+EXH3_PREFIX = [['edit', 0, 1], _utd_def([['cfg', 1]]), ['run', {'plan': {}}]]
+# one task, file_dep [f0] plus an uptodate item that can turn false: runs caused by the item interleaved with edits
+# to another content and back
+EXH_UTD = {'r': [['run', {'plan': {}}]], 'e': [['edit', 0, 3]], 'd': [['edit', 0, 1]], 't': [['touch', 0]],
+           'k': [_utd_def([['cfg', 2]]), ['run', {'plan': {}}]], 'j': [_utd_def([['cfg', 1]]), ['run', {'plan': {}}]],
+           'n': [_utd_def([['const', False]]), ['run', {'plan': {}}]], 'y': [_utd_def([['const', True]]), ['run', {'plan': {}}]],
+           'w': [['run', {'plan': {'0': {'ok': True, 'writes': [[0, 5]], 'res': None}}, 'always': True}]]}
+
+
 def _words(alphabet, maxlen, keep):
     letters = sorted(alphabet)
     seqs, out = [''], []
@@ -1193,13 +1421,16 @@ EXH_SHARED = {'R': [['run', {'plan': {}}]], 'L': [['run', {'plan': {}, 'sel': [0
               'G': [['forget', [0]]], 'F': [['run', {'plan': {'1': {'ok': False, 'writes': [], 'res': None}}, 'cont': True}]]}
 
 
-def exhaustive_cases(maxlen, macro_len=None, shared_len=None):
+def exhaustive_cases(maxlen, macro_len=None, shared_len=None, utd_len=None):
     """every history of length <= maxlen over the 9-op plain alphabet on one task that ends in an observing op
     (run / failing run / reset-dep) and contains a successful run or reset before it, plus every history of
     length <= macro_len over the 9-letter macro alphabet (redefine+run fused) ending in an observing letter, plus
     every history of length <= shared_len over the 9-letter alphabet on TWO tasks sharing a file_dep (full run,
     run of one task only, edit, touch, reset-dep / forget of one task, run in which the second task fails) that
-    contains an edit/touch and ends in a run; backend and checker rotate"""
+    contains an edit/touch and ends in a run, plus every history of length <= utd_len over the 9-letter alphabet on one
+    task with a file_dep and an uptodate item that can turn false (config_changed 1/2, const True/False fused with a run;
+    edit to another content / back; touch; an --always run whose action rewrites the dependency); backend and checker
+    rotate"""
     out = []
     words = [(w, EXH_ALPHABET, EXH_PREFIX, 1) for w in _words(EXH_ALPHABET, maxlen,
              lambda s: s[-1] in 'RFS' and ('R' in s[:-1] or 'S' in s[:-1]))]
@@ -1207,6 +1438,8 @@ def exhaustive_cases(maxlen, macro_len=None, shared_len=None):
               lambda s: s[-1] in 'abcrfs' and len(s) > 1)]
     words += [('2:' + w, EXH_SHARED, EXH2_PREFIX, 2) for w in _words(EXH_SHARED, shared_len or 0,
               lambda s: s[-1] in 'RLMF' and ('E' in s or 'T' in s) and len(s) > 1)]
+    words += [('3:' + w, EXH_UTD, EXH3_PREFIX, 1) for w in _words(EXH_UTD, utd_len or 0,
+              lambda s: s[-1] in 'rkjyw' and len(s) > 1 and any(c in s for c in 'edtw'))]
     for n, (w, alpha, prefix, ntasks) in enumerate(words):
         ops = list(prefix)
         for a in w.split(':')[-1]:
@@ -1246,7 +1479,8 @@ def nontrivial(case, v):
 
 
 def strip(case):
-    return {k: case[k] for k in ('backend', 'checker', 'ntasks', 'npaths', 'ops', 'hashseed', 'scramble') if k in case}
+    return {k: case[k] for k in ('backend', 'checker', 'ntasks', 'npaths', 'ops', 'hashseed', 'scramble', 'kind', 'order', 'consumers',
+                                    'par') if k in case}
 
 
 def failing_predicate(prop):
@@ -1323,10 +1557,11 @@ def process_batch(arg):
             v2 = evaluate([small])[0]
             bad2 = (v2.c03 if prop == 'C03' else v2.c04) or bad
             i, t, kind = bad2[0]
+            t = t if isinstance(t, str) else tname(t)
             what = ('skipped %s although the specification (shadow of its last recorded successful execution) says '
-                    'it is stale' % tname(t)) if prop == 'C03' else \
-                   ('executed %s although nothing changed since its last recorded successful execution' % tname(t))
-            st.violation({'case': small, 'rendered': render(small), 'at_op': i, 'task': tname(t), 'event': kind,
+                    'it is stale' % t) if prop == 'C03' else \
+                   ('executed %s although nothing changed since its last recorded successful execution' % t)
+            st.violation({'case': small, 'rendered': render(small), 'at_op': i, 'task': t, 'event': kind,
                           'origin': origin},
                          'monitor', what)
         elif v.divergence:
@@ -1339,7 +1574,7 @@ def process_batch(arg):
 
 
 def run_property(ctx, prop, n_random, exh_len, macro_len, parallel_share=0.0, n_info=0, sub_share=0.02,
-                 shared_len=3):
+                 shared_len=3, utd_len=3):
     """corpus first, then the small-scope exhaustive tier, then random histories -- in rounds, until everything is
     done or the time budget of the tier is used up (what was left out is written to the evidence)"""
     items = []
@@ -1347,12 +1582,17 @@ def run_property(ctx, prop, n_random, exh_len, macro_len, parallel_share=0.0, n_
     for name, c in corpus:
         items.append(('corpus', c))
     seeds = [c for _, c in corpus]
-    ex = exhaustive_cases(exh_len, macro_len, shared_len)
+    calc = calc_cases(full=(ctx.tier != 'quick' or ctx.boost > 1))
+    ctx.extra['calc_dep_scenarios'] = len(calc)
+    for c in calc:
+        items.append(('calc-dep-scenario', c))
+    ex = exhaustive_cases(exh_len, macro_len, shared_len, utd_len)
     ex.sort(key=lambda c: len(c['word'].split(':')[-1]))
     ctx.extra['exhaustive_small_scope'] = {
         'alphabet': len(EXH_ALPHABET), 'max_len': exh_len, 'macro_alphabet': len(EXH_MACRO),
         'macro_max_len': macro_len, 'shared_dep_two_tasks_alphabet': len(EXH_SHARED),
-        'shared_dep_max_len': shared_len, 'histories': len(ex),
+        'shared_dep_max_len': shared_len, 'uptodate_item_alphabet': len(EXH_UTD), 'uptodate_item_max_len': utd_len,
+        'histories': len(ex),
         'filter': 'ends in run / failing run / reset-dep; plain words contain an earlier run or reset'}
     short = [c for c in ex if len(c['word'].split(':')[-1]) <= 3]
     rest = [c for c in ex if len(c['word'].split(':')[-1]) > 3]
@@ -1416,7 +1656,10 @@ def replay_case(ctx, data, prop):
     print('\n'.join(render(case)))
     v = evaluate([case])[0]
     for i, o in enumerate(v.obs):
-        if o['kind'] == 'run':
+        if o['kind'] == 'run' and 'executed' in o:
+            print('  step %d: %s -> exit %s: executed %s, up-to-date %s; inputs changed since the last successful '
+                  'execution: %s' % (i, ' '.join(['doit'] + o['argv']), o['code'], o['executed'], o['skipped'], o['expected']))
+        elif o['kind'] == 'run':
             print('  op %d: doit run -> exit %s: %s' % (i, o['code'], ', '.join('%s %s' % (tname(t), out)
                                                                              for t, out, _ in o['steps'])))
         elif o['kind'] == 'reset-dep':
